@@ -295,9 +295,24 @@ theorem packet_restarts_idle (g : Glue) (t : Int) (fs : List Frame) : (g.packet 
     cases f with
     | ping => rfl
     | ncid seq rpt => simp only [Glue.frame]; split <;> rfl
-    | strm sid off len =>
+    | strm sid off len fin =>
+      have hcc : ∀ (g : Glue) (sid : Int), (g.checkCompleted sid).idle = g.idle := by
+        intro g sid; unfold Glue.checkCompleted; split <;> (try split) <;> rfl
+      have hab : ∀ (g : Glue) (sid : Int), (g.abandon sid).idle = g.idle := by
+        intro g sid; unfold Glue.abandon; split
+        · rfl
+        · rw [hcc]; simp only [hset]
+      have hacc : ∀ (g : Glue), (g.accept t sid off len fin).1.idle = g.idle := by
+        intro g
+        simp only [Glue.accept]
+        split <;> (try split) <;> (try split) <;> (try split) <;> (try split) <;> (try split) <;>
+          (try rw [hab]) <;> simp only [hset]
+      have hsrv : ∀ (uni : Bool), (g.strmServer uni t sid off len fin).1.idle = g.idle := by
+        intro uni
+        simp only [Glue.strmServer]
+        split <;> (try rw [hacc]) <;> (try rfl)
       simp only [Glue.frame]
-      split <;> (try split) <;> (try split) <;> (try split) <;> simp only [hset]
+      split <;> (try split) <;> (try split) <;> (try simp only [hacc]) <;> (try simp only [hsrv])
     | dgram len => simp only [Glue.frame]; split <;> (try split) <;> rfl
   have hframes : ∀ (fs : List Frame) (g : Glue), (g.frames t fs).1.idle = g.idle := by
     intro fs
